@@ -368,7 +368,7 @@ impl Property for C08 {
                 Plan {
                     name: "hist-parse",
                     kind: PlanKind::Random {
-                        cases: 12_000,
+                        cases: 150_000,
                         max_len: 400,
                     },
                     knobs: Knobs {
@@ -405,7 +405,7 @@ impl Property for C08 {
                 Plan {
                     name: "hist-parse",
                     kind: PlanKind::Random {
-                        cases: 400_000,
+                        cases: 1_500_000,
                         max_len: 600,
                     },
                     knobs: Knobs {
